@@ -189,7 +189,8 @@ def shards(tier, seed_):
 
 def run_shard(shard, acc):
     prof = gen.Profile(w_atom=5, w_pred=4, w_ident=2, w_neg=4, w_assert=1, w_bin=8, w_modal=5, w_quant=3, max_depth=3,
-                       consts=(A.const(0), A.const(1, 2), A.const(3, 12)), natoms=5)
+                       consts=(A.const(0), A.const(1, 2), A.const(3, 12)), natoms=5,
+                       preds=((0, 0, 1), (1, 0, 2), (2, 1, 3)))
 
     @seed(shard['seed'] * 1000 + shard['shard'])
     @settings(max_examples=shard['examples'], database=None, deadline=None, report_multiple_bugs=False,
@@ -204,7 +205,7 @@ def run_shard(shard, acc):
         case['models'] = data.draw(st.booleans())
         case['opts'] = dict(
             standard=dict(drop_parens=data.draw(st.booleans()), identity_infix=data.draw(st.booleans()),
-                          max_infix=data.draw(st.sampled_from([0, 0, 2, 3]))),
+                          max_infix=data.draw(st.sampled_from([0, 0, 2, 3, 5]))),
             html=dict(fulldoc=data.draw(st.booleans()), inline_css=data.draw(st.booleans()), wrapper=data.draw(st.booleans())),
             latex=dict(fulldoc=data.draw(st.booleans())))
         res, info = check_case(case)
